@@ -575,6 +575,14 @@ pub(crate) fn exec_id(e: &Arc<Exec>) -> u64 {
   e.id
 }
 
+/// Does the calling scheduler thread hold an unpark token right now? (harness executor; no scheduling point, not logged)
+pub fn has_token() -> bool {
+  match current() {
+    Some((ex, me)) => ex.lock().token[me],
+    None => false,
+  }
+}
+
 pub(crate) fn park() {
   match current() {
     None => std::thread::park(),
